@@ -87,8 +87,8 @@ contract(O + "parameters", params={"self": "ODE"}, ret="Seq[Atom]")
 contract(O + "state_derivatives", params={"self": "ODE"}, ret="Seq[Atom]")
 contract(O + "intermediates", params={"self": "ODE"}, ret="Seq[Atom]")
 contract(O + "symbols", params={"self": "ODE"}, ret="Dict[Name,Sym]", ensures={"is_field": "result == self._symbols"})
-contract(O + "num_states", params={"self": "ODE"}, ret="Int", ensures={"len": "result == len(self.states)"})
-contract(O + "num_parameters", params={"self": "ODE"}, ret="Int", ensures={"len": "result == len(self.parameters)"})
+contract(O + "num_states", params={"self": "ODE"}, ret="Int", requires=["WF(self)"], ensures={"len": "result == len(self.states)"})
+contract(O + "num_parameters", params={"self": "ODE"}, ret="Int", requires=["WF(self)"], ensures={"len": "result == len(self.parameters)"})
 contract(O + "num_components", params={"self": "ODE"}, ret="Int", ensures={"len": "result == len(self.components)"})
 contract(O + "missing_variables", params={"self": "ODE"}, ret="Dict[Name,Int]")
 contract(O + "dependents", params={"self": "ODE"}, ret="Dict[Name,Set[Name]]")
@@ -100,17 +100,17 @@ contract(
     O + "sorted_assignments",
     params={"self": "ODE", "assignments_only": "Bool", "remove_unused": "Bool"},
     ret="Seq[Atom]",
-    raises={"GotranxError": "ode_has_none_value(self)", "CycleError": "ode_cyclic(self)"},
+    raises={"GotranxError": "maybe", "CycleError": "maybe", "KeyError": "maybe"},
 )
 contract(
     O + "sorted_state_derivatives", params={"self": "ODE"}, ret="Seq[Atom]",
-    raises={"GotranxError": "ode_has_none_value(self)", "CycleError": "ode_cyclic(self)"},
+    raises={"GotranxError": "maybe", "CycleError": "maybe", "KeyError": "maybe"},
     where={"SA": "self.sorted_assignments(True, False)"},
     ensures={"filter": "result == filter_sd(SA, len(SA))"},
 )
 contract(
     O + "sorted_states", params={"self": "ODE"}, ret="Seq[Atom]",
-    raises={"GotranxError": "ode_has_none_value(self)", "CycleError": "ode_cyclic(self)"},
+    raises={"GotranxError": "maybe", "CycleError": "maybe", "KeyError": "maybe"},
     where={"SD": "self.sorted_state_derivatives()"},
     ensures={"map": "result == map_state(SD, len(SD))"},
 )
